@@ -423,3 +423,388 @@ def c13_8(ctx: Ctx):
         ctx.check(ok, fi, rs[0].node, f"{name}: the symbol is resolved whenever there is a current procedure",
                   f"resolved only under `{f_show(rs[0].guard)[:100]}`: block patches are assembled inside an implicit procedure, so there an unknown name raises no UndefSymbolError and with "
                   "allow_undef_symbols no proxy-backed symbol is created for it", key=f"{name}::resolves-always")
+
+
+@rule("C20.12", ["C20", "C09", "C02", "C05"], "ReferenceCache mirrors, converse direction: every _referents entry / parent pointer has its set-side twin; the indirect-reference test walks whole trees", 7)
+def c20_12(ctx: Ctx):
+    cls = ctx.repo.cls("_modify.cache.ReferenceCache")
+    n = 0
+    for name, m in sorted(cls.methods.items()):
+        lin = linear(m.node)
+        for g in lin.stmts:
+            if not isinstance(g.node, ast.Assign) or len(g.node.targets) != 1:
+                continue
+            t = g.node.targets[0]
+            # self._referents[S] = N   <->   N.symbols.add(S)
+            if isinstance(t, ast.Subscript) and src(t.value) == "self._referents":
+                n += 1
+                s, node = src(t.slice), src(g.node.value)
+                tw = [x for x, c in lin.all_calls() if src(c) == f"{node}.symbols.add({s})" and x.guard == g.guard]
+                ctx.check(bool(tw), m, g.node, f"{name}: `self._referents[{s}] = {node}` has its twin `{node}.symbols.add({s})`",
+                          f"the symbol is recorded as living in `{node}` but is not put into that node's symbol set: apply()/get_references never reach it, it keeps `referent None` "
+                          "and the end-of-apply assertion `not self._referents` fires", key=f"{name}::referents-twin::{node}")
+            # Y.parent = Z  <->  Z.children.add(Y) (+ removal from the old parent unless Y is a detached root)
+            if isinstance(t, ast.Attribute) and t.attr == "parent" and isinstance(t.value, ast.Name):
+                n += 1
+                y, z = t.value.id, src(g.node.value)
+                adds = [x for x, c in lin.all_calls() if src(c) == f"{z}.children.add({y})" and x.guard == g.guard]
+                ctx.check(bool(adds), m, g.node, f"{name}: `{y}.parent = {z}` has its twin `{z}.children.add({y})`",
+                          f"`{y}` points at `{z}` as its parent but is not among `{z}`'s children: the walk from the referent block down never reaches `{y}`'s symbols", key=f"{name}::parent-twin::{y}")
+                if name != "retarget_references":   # there the two trees were popped from the table: roots, in nobody's children
+                    rms = [x for x, c in lin.all_calls() if isinstance(c.func, ast.Attribute) and c.func.attr == "remove" and src(c.func.value).endswith(".children") and c.args and src(c.args[0]) == y
+                           and x.guard == g.guard]
+                    ctx.check(bool(rms), m, g.node, f"{name}: re-parenting `{y}` also takes it out of its old parent's children",
+                              f"`{y}` is added under `{z}` but stays in its old parent's child set: it is then reachable twice, its symbols are made direct twice (KeyError on the second "
+                              "`del self._referents[symbol]`) or re-attached to a node that was meant to be unlinked", key=f"{name}::parent-old-removed::{y}")
+    hi = cls.methods.get("_has_indirect_references")
+    if hi is None:
+        raise AnalysisError("ReferenceCache._has_indirect_references not found")
+    lin = linear(hi.node)
+    rt = [g for g in lin.stmts if isinstance(g.node, ast.Return) and isinstance(g.node.value, ast.Constant) and g.node.value.value is True]
+    rf = [g for g in lin.stmts if isinstance(g.node, ast.Return) and isinstance(g.node.value, ast.Constant) and g.node.value.value is False]
+    ext = [g for g, c in lin.all_calls() if src(c) == "worklist.extend(node.children)"]
+    pop = [g for g in lin.stmts if isinstance(g.node, ast.Assign) and src(g.node) == "node = worklist.pop()"]
+    init = single_assign_value(hi.node, "worklist") if not pop else None
+    ok = len(rt) == 1 and rt[0].loops and lin.under(rt[0], "node.symbols") and len(rf) == 1 and not rf[0].loops and len(ext) == 1 and ext[0].loops and len(pop) == 1 and pop[0].loops \
+        and pop[0].index < rt[0].index
+    n += 1
+    ctx.check(ok, hi, hi.node, "_has_indirect_references: depth-first over both trees, True at the first node with symbols, False when exhausted",
+              "the walk changed (children not followed / wrong constant returned): a block whose symbols sit in a *grand-child* node (retargeted twice) is taken to have no references, "
+              "retarget_references then drops its trees and those symbols are left without referent - or an emptied tree keeps a block alive", key="_has_indirect_references::walk")
+    if n < 7:
+        raise AnalysisError(f"only {n} mirror sites found in ReferenceCache")
+
+
+@rule("C10.10", ["C10", "C05", "C02"], "are_joinable does not over-refuse: an *empty* block2 is absorbed even when block1 has end labels or a terminator that falls through into it", 2)
+def c10_10(ctx: Ctx):
+    fi = ctx.repo.func("_modify.join.are_joinable")
+    lin = linear(fi.node)
+    refusals = [g for g in lin.stmts if isinstance(g.node, ast.Return) and isinstance(g.node.value, ast.Call) and g.node.value.args
+                and isinstance(g.node.value.args[0], ast.Constant) and g.node.value.args[0].value is False]
+    if len(refusals) < 8:
+        raise AnalysisError(f"are_joinable: only {len(refusals)} refusals found")
+
+    def about(sub: str):
+        return [g for g in refusals if any(sub in a for a in _atoms(g.guard)) and not any(any(sub in a for a in _atoms(h.guard)) for h in refusals if h.index < g.index)]
+
+    end = about("get_references(block1)")
+    ok = len(end) == 1 and lin.under(end[0], "block2.size")
+    ctx.check(ok, fi, end[0].node if end else fi.node, "end labels of block1 forbid the join only when block2 has bytes",
+              "the end-label refusal also applies to an empty block2: the zero-sized block a split left behind at the end of a block with an end label can never be merged back, so a no-op "
+              "rewrite leaves an extra zero-sized block in the module", key="are_joinable::end-labels-only-if-block2-sized")
+    out = about("any_out_edges") or about("block1.outgoing_edges")
+    ok = len(out) == 1 and lin.under(out[0], "block2.size != 0 or not falls_through")
+    ctx.check(ok, fi, out[0].node if out else fi.node, "other outgoing edges of block1 forbid the join only when block2 has bytes or is not its fallthrough",
+              "the outgoing-edge refusal also applies to an empty fallthrough successor: the empty continuation block the assembler appends after a terminator can never be merged back",
+              key="are_joinable::out-edges-only-if-buried")
+
+
+def _bound_in_expr(e: ast.AST) -> set:
+    out = set()
+    for n in ast.walk(e):
+        if isinstance(n, ast.comprehension):
+            out |= {t.id for t in ast.walk(n.target) if isinstance(t, ast.Name)}
+        elif isinstance(n, ast.Lambda):
+            a = n.args
+            out |= {x.arg for x in a.args + a.kwonlyargs + a.posonlyargs} | ({a.vararg.arg} if a.vararg else set()) | ({a.kwarg.arg} if a.kwarg else set())
+        elif isinstance(n, ast.NamedExpr):
+            out.add(n.target.id)
+    return out
+
+
+def _own_exprs(st: ast.stmt) -> List[ast.AST]:
+    if isinstance(st, (ast.If, ast.While)):
+        return [st.test]
+    if isinstance(st, (ast.For, ast.AsyncFor)):
+        return [st.iter]
+    if isinstance(st, (ast.With, ast.AsyncWith)):
+        return [i.context_expr for i in st.items]
+    if isinstance(st, ast.Try):
+        return []
+    if isinstance(st, (ast.FunctionDef, ast.AsyncFunctionDef, ast.ClassDef)):
+        return list(st.decorator_list)
+    return [st]
+
+
+def _defs_of(st: ast.stmt) -> set:
+    out = set()
+    if isinstance(st, ast.Assign):
+        for t in st.targets:
+            out |= {n.id for n in ast.walk(t) if isinstance(n, ast.Name) and isinstance(n.ctx, ast.Store)}
+    elif isinstance(st, ast.AnnAssign) and st.value is not None and isinstance(st.target, ast.Name):
+        out.add(st.target.id)
+    elif isinstance(st, ast.AugAssign) and isinstance(st.target, ast.Name):
+        out.add(st.target.id)
+    elif isinstance(st, (ast.For, ast.AsyncFor)):
+        out |= {n.id for n in ast.walk(st.target) if isinstance(n, ast.Name)}
+    elif isinstance(st, (ast.With, ast.AsyncWith)):
+        for i in st.items:
+            if i.optional_vars is not None:
+                out |= {n.id for n in ast.walk(i.optional_vars) if isinstance(n, ast.Name)}
+    elif isinstance(st, (ast.Import, ast.ImportFrom)):
+        out |= {(a.asname or a.name).split(".")[0] for a in st.names}
+    elif isinstance(st, (ast.FunctionDef, ast.AsyncFunctionDef, ast.ClassDef)):
+        out.add(st.name)
+    return out
+
+
+@rule("GEN.undef", ALL_PROPS, "every read of a local variable is preceded, on all paths, by an assignment (guard-aware definite assignment)", 1, scoped=True)
+def gen_undef(ctx: Ctx):
+    from ..astx import f_or
+
+    reads = 0
+    for q, fi in sorted(ctx.repo.funcs.items()):
+        if q.startswith(("driver.", "assembler.__main__")):
+            continue
+        fn = fi.node
+        a = fn.args
+        params = {x.arg for x in a.args + a.kwonlyargs + a.posonlyargs} | ({a.vararg.arg} if a.vararg else set()) | ({a.kwarg.arg} if a.kwarg else set())
+        lin = linear(fn)
+        defs = [(g, _defs_of(g.node)) for g in lin.stmts]
+        locs = set().union(*[d for _, d in defs]) - params if defs else set()
+        if not locs:
+            continue
+        handlers = {h.name for n in walk_no_nested(fn) if isinstance(n, ast.Try) for h in n.handlers if h.name}
+        never = [g for g in lin.stmts if isinstance(g.node, ast.Expr) and isinstance(g.node.value, ast.Call) and src(g.node.value.func) in ("assert_never", "typing.assert_never")]
+        reported = set()
+        for g in lin.stmts:
+            for e in _own_exprs(g.node):
+                bound = _bound_in_expr(e)
+                for n in ast.walk(e):
+                    if not (isinstance(n, ast.Name) and isinstance(n.ctx, ast.Load) and n.id in locs and n.id not in bound and n.id not in handlers):
+                        continue
+                    reads += 1
+                    cands = []
+                    for d, names in defs + [(x, {n.id}) for x in never]:
+                        if n.id in names and d.index < g.index and len(d.loops) <= len(g.loops) and tuple(g.loops[: len(d.loops)]) == tuple(d.loops):
+                            cands.append(d.guard)
+                    if cands and implies(g.guard, f_or(*cands)):
+                        continue
+                    if (q, n.id) in reported:
+                        continue
+                    reported.add((q, n.id))
+                    ctx.fail(fi, g.node, f"`{n.id}` may be read before it is assigned",
+                             f"`{src(g.node)[:80]}` reads `{n.id}`, but no assignment dominates it (the initialisation was removed, moved under a condition, or into a loop that may run "
+                             "zero times): the first time this path is taken the rewrite dies with UnboundLocalError half-way - or, inside a loop, silently uses the previous iteration's value",
+                             key=f"{q}::undef::{n.id}")
+    ctx.ok(ctx.repo.mod("rewriting"), None, f"{reads} reads of local variables checked for a dominating assignment", nontrivial=False, key="GEN.undef::scan")
+    if reads < 1500:
+        raise AnalysisError(f"only {reads} reads of locals scanned")
+
+
+_SWALLOW_OK = {
+    ("_modify.edit._cleanup_modified_blocks", "UnjoinableBlocksError"): "a refused join is the expected outcome: the blocks simply stay apart",
+}
+
+
+@rule("GEN.swallow", ALL_PROPS, "an exception handler re-raises, converts or recovers - it never just logs and carries on", 1, scoped=True)
+def gen_swallow(ctx: Ctx):
+    n = 0
+    for q, fi in sorted(ctx.repo.funcs.items()):
+        if q.startswith(("driver.", "assembler.__main__")):
+            continue
+        for t in walk_no_nested(fi.node):
+            if not isinstance(t, ast.Try):
+                continue
+            for h in t.handlers:
+                n += 1
+                ty = src(h.type) if h.type is not None else "BaseException"
+                acts = [s for st in h.body for s in ast.walk(st) if isinstance(s, (ast.Raise, ast.Return, ast.Continue, ast.Break, ast.Assign, ast.AugAssign, ast.AnnAssign, ast.Yield))]
+                if acts:
+                    ctx.ok(fi, h, f"{q}: `except {ty}` raises/returns/recovers", key=f"{q}::swallow::{ty}", nontrivial=False)
+                    continue
+                why = _SWALLOW_OK.get((q, ty))
+                if why:
+                    ctx.ok(fi, h, f"{q}: `except {ty}` deliberately ignores the error", why, key=f"{q}::swallow::{ty}", nontrivial=False)
+                    continue
+                ctx.fail(fi, h, f"`except {ty}` neither re-raises nor recovers",
+                         f"the handler only calls `{src(h.body[0])[:60] if h.body else 'nothing'}` and falls through: the failed operation (e.g. a patch that does not assemble) is treated as done and the "
+                         "rewrite continues with a half-built result", key=f"{q}::swallow::{ty}")
+    ctx.ok(ctx.repo.mod("rewriting"), None, f"{n} exception handlers examined", nontrivial=False, key="GEN.swallow::scan")
+    if n < 8:
+        raise AnalysisError(f"only {n} exception handlers found")
+
+
+@rule("C07.12", ["C07", "C13"], "a scope is refused only when the context really has no functions; an inserted function's patch is applied at offset 0 of its stub and told so", 3)
+def c07_12(ctx: Ctx):
+    repo = ctx.repo
+    fi = repo.func("rewriting.RewritingContext.register_insert")
+    lin = linear(fi.node)
+    rs = [g for g in lin.stmts if isinstance(g.node, ast.Raise) and g.node.exc is not None and "UnresolvableScopeError" in src(g.node.exc)]
+    if len(rs) != 1:
+        raise AnalysisError("register_insert: UnresolvableScopeError not found")
+    ok = lin.under(rs[0], "not self._functions") and lin.under(rs[0], "scope._needs_functions()")
+    ctx.check(ok, fi, rs[0].node, "UnresolvableScopeError only when there are no functions and the scope needs them",
+              f"raised under `{f_show(rs[0].guard)[:90]}`: function scopes are refused although the context was given functions (or a block scope is refused)", key="register_insert::refusal")
+    adds = [g for g, c in lin.all_calls() if src(c.func) == "self._modifications.add"]
+    ctx.check(len(adds) == 1 and not adds[0].loops, fi, adds[0].node if adds else fi.node,
+              "the registration is stored once", "registration storing changed", key="register_insert::stored")
+    fa = repo.func("rewriting.RewritingContext._apply_function_insertion")
+    ic = [c for c in calls_in(fa.node) if src(c.func) == "InsertionContext"]
+    ip = [c for c in calls_in(fa.node) if src(c.func) == "self._invoke_patch"]
+    ins = [c for c in calls_in(fa.node) if src(c.func) == "self._insert_assembler_result"]
+    if len(ic) != 1 or len(ip) != 1 or len(ins) != 1:
+        raise AnalysisError("_apply_function_insertion: context / _invoke_patch / _insert_assembler_result not found")
+
+    def zero(e):
+        return isinstance(e, ast.Constant) and e.value == 0 and not isinstance(e.value, bool)
+
+    offs = {"InsertionContext offset": ic[0].args[3] if len(ic[0].args) > 3 else None, "_invoke_patch offset": ip[0].args[2] if len(ip[0].args) > 2 else None}
+    for what, e in offs.items():
+        ctx.check(e is not None and zero(e), fa, e or fa.node, f"function insertion: {what} is 0",
+                  f"{what} is `{src(e) if e is not None else '?'}`: the body of an inserted function starts at offset 0 of its (empty) stub block; any other value is reported to the patch / "
+                  "used for the unreachability test although no such offset exists", key=f"_apply_function_insertion::{what}")
+
+
+@rule("GEN.missingreturn", ALL_PROPS, "a function annotated with a non-Optional result returns a value on every path", 1, scoped=True)
+def gen_missingreturn(ctx: Ctx):
+    from ..astx import satisfiable
+
+    n = 0
+    for q, fi in sorted(ctx.repo.funcs.items()):
+        fn = fi.node
+        if fn.returns is None or q.startswith(("driver.", "assembler.__main__")):
+            continue
+        r = src(fn.returns)
+        if "None" in r:
+            continue
+        if any(isinstance(x, (ast.Yield, ast.YieldFrom)) for x in walk_no_nested(fn)):
+            continue
+        body = [s for s in fn.body if not (isinstance(s, ast.Expr) and isinstance(s.value, ast.Constant))]
+        if any(src(d).endswith(("abstractmethod", "overload")) for d in fn.decorator_list):
+            continue
+        if not body or all(isinstance(s, ast.Pass) for s in body):
+            # an empty body is a stub only for a hook that every direct subclass overrides (abstract method / protocol member)
+            cls = next((c for c in ctx.repo.classes.values() if any(m is fi for m in c.methods.values())), None)
+            subs = [c for c in ctx.repo.classes.values() if cls is not None and any(b.split(".")[-1] == cls.name for b in c.bases)]
+            if cls is None or "Protocol" in " ".join(cls.bases) or (subs and all(fn.name in c.methods for c in subs)):
+                continue
+        n += 1
+        lin = linear(fn)
+        if satisfiable(lin.exit_guard):
+            ctx.fail(fi, fn.body[-1], f"`{q.split('.')[-1]}` can fall off its end although it is declared `-> {r}`",
+                     f"under `{f_show(lin.exit_guard)[:100]}` no return statement is reached and the caller receives None instead of a `{r}`: the first use (`.sizes`, iteration, arithmetic) fails "
+                     "far from the cause, or None is silently taken as 'no'/'empty'", key=f"{q}::missing-return")
+    ctx.ok(ctx.repo.mod("abi"), None, f"{n} annotated non-Optional functions end in return/raise on every path", nontrivial=False, key="GEN.missingreturn::scan")
+    if n < 150:
+        raise AnalysisError(f"only {n} annotated functions scanned")
+
+
+@rule("GEN.emptyif", ALL_PROPS, "no condition is tested for nothing (`if c: pass` without else, a loop whose body is `pass`)", 1, scoped=True)
+def gen_emptyif(ctx: Ctx):
+    n = 0
+
+    def only_pass(body):
+        return bool(body) and all(isinstance(s, ast.Pass) for s in body)
+
+    for name, m in sorted(ctx.repo.mods.items()):
+        if name.startswith(("driver", "assembler.__main__")):
+            continue
+        raw = ast.parse(m.source)   # the loader drops `pass`; this lint is about exactly that statement
+        funcs = {}
+        for q, fi in ctx.repo.funcs.items():
+            if fi.mod is m:
+                funcs[(fi.node.lineno, fi.node.name)] = (q, fi)
+        for fn in [x for x in ast.walk(raw) if isinstance(x, (ast.FunctionDef, ast.AsyncFunctionDef))]:
+            hit = funcs.get((fn.lineno, fn.name))
+            if hit is None:
+                continue
+            q, fi = hit
+            for node in walk_no_nested(fn):
+                if isinstance(node, ast.If):
+                    n += 1
+                    if only_pass(node.body) and not node.orelse:
+                        ctx.fail(fi, node, f"`if {src(node.test)[:60]}: pass`",
+                                 "the condition is evaluated and nothing happens: whatever this branch used to do (refuse the input, return early, record something) is gone and the function "
+                                 "carries on as if the condition were false", key=f"{q}::emptyif::{src(node.test)[:60]}")
+                    # (`if c: X else: pass` is not reported: it is the mirror image of the accepted idiom `if c: pass else: X`)
+                elif isinstance(node, (ast.For, ast.While)):
+                    n += 1
+                    if only_pass(node.body):
+                        ctx.fail(fi, node, f"loop `{src(node)[:50]}` has an empty body", "the loop iterates and does nothing", key=f"{q}::emptyloop::{node.lineno - fn.lineno}")
+    ctx.ok(ctx.repo.mod("rewriting"), None, f"{n} if/for/while statements examined for empty bodies", nontrivial=False, key="GEN.emptyif::scan")
+    if n < 700:
+        raise AnalysisError(f"only {n} compound statements scanned")
+
+
+@rule("C12.17", ["C12", "C05", "C08", "C02"], "assembler bookkeeping II: data operands are not branches; converted blocks take their table entries along; implicit procedures exist only in the text section", 5)
+def c12_17(ctx: Ctx):
+    repo = ctx.repo
+    ev = repo.func("assembler.assembler._Streamer.emit_value_impl") if "assembler.assembler._Streamer.emit_value_impl" in repo.funcs else None
+    sites = []
+    for q, fi in repo.funcs.items():
+        if q.startswith("assembler.assembler._Streamer.") and not q.endswith("_mcexpr_to_symbolic_operand"):
+            for c in calls_in(fi.node):
+                if src(c.func) == "self._mcexpr_to_symbolic_operand" and len(c.args) >= 2:
+                    sites.append((q, fi, c))
+    if len(sites) < 2:
+        raise AnalysisError("call sites of _mcexpr_to_symbolic_operand not found")
+    for q, fi, c in sites:
+        a = c.args[1]
+        if q.endswith(("emit_value_impl", "emit_value")):
+            ok = isinstance(a, ast.Constant) and a.value is False
+            ctx.check(ok, fi, c, "a data value (`.quad sym`) is converted with is_branch=False",
+                      f"is_branch is `{src(a)}`: in a PIE every `.quad ext` / `.long ext` to an external symbol gets the PLT attribute meant for call/jmp operands", key="emit_value::not-a-branch")
+        else:
+            ok = isinstance(a, ast.Name)
+            ctx.check(ok, fi, c, f"{q.split('.')[-1]}: is_branch is passed through from the instruction description", f"is_branch is the constant `{src(a)}`", key=f"{q.split('.')[-1]}::is-branch-passed")
+    rs = repo.func("assembler.assembler.Assembler._replace_symbol_referents")
+    d = rs.node.args.defaults
+    ok = len(d) == 1 and isinstance(d[0], ast.Constant) and d[0].value is False
+    ctx.check(ok, rs, rs.node, "_replace_symbol_referents leaves at_end alone unless asked (make_at_end defaults to False)",
+              "make_at_end defaults to True: every label moved from a folded or converted block becomes an end-of-block label and designates the byte *after* the data it named",
+              key="_replace_symbol_referents::default")
+    cd = repo.func("assembler.assembler.Assembler._convert_data_blocks")
+    lin = linear(cd.node)
+    for tab in ("section.alignment", "section.line_map"):
+        st = [g for g in lin.stmts if isinstance(g.node, ast.Assign) and src(g.node.targets[0]) == f"{tab}[new_block]"]
+        dl = [g for g in lin.stmts if isinstance(g.node, ast.Delete) and any(src(t) == f"{tab}[block]" for t in g.node.targets)]
+        dl += [g for g, c in lin.all_calls() if src(c.func) == f"{tab}.pop" and c.args and src(c.args[0]) == "block"]
+        ok = len(st) == 1 and len(dl) >= 1 and implies(st[0].guard, dl[0].guard)
+        ctx.check(ok, cd, st[0].node if st else cd.node, f"`{tab}` entry of a converted block moves to the DataBlock (old key removed)",
+                  f"the CodeBlock that was replaced stays as a key of `{tab}`: insert() copies the table into the module's aux data, which then names a block that is not part of the module",
+                  key=f"_convert_data_blocks::{tab}-moved")
+    sp = repo.func("assembler.assembler._Streamer.emit_cfi_start_proc_impl")
+    v = single_assign_value(sp.node, "is_implicit")
+    ls = linear(sp.node)
+    ok = v is not None
+    if ok:
+        a = ls.cond(v, {})
+        b = ls.cond(ast.parse("self._state.implicit_cfi_procedure and self._state.current_section == self._state.text_section", mode="eval").body, {})
+        ok = implies(a, b) and implies(b, a)
+    ctx.check(ok, sp, sp.node, "a procedure is implicit only when implicit procedures are on *and* it starts in the text section",
+              f"is_implicit = `{src(v)[:90] if v is not None else '?'}`: an explicit `.cfi_startproc` in another section of a block patch is treated as the implicit one - it gets no start offset "
+              "and its .cfi_startproc/.cfi_endproc never reach cfiDirectives", key="emit_cfi_start_proc_impl::implicit-only-in-text")
+
+
+@rule("C06.10", ["C06", "C05"], "entry promotion has no condition beyond the documented ones; an inserted function is entered in every function table on every file format", 6)
+def c06_10(ctx: Ctx):
+    repo = ctx.repo
+    fi = repo.func("_modify.remove._update_functions_aux_data")
+    lin = linear(fi.node)
+    adds = [g for g, c in lin.all_calls() if isinstance(c.func, ast.Attribute) and c.func.attr == "add" and "aux_function_entries" in src(c.func.value)]
+    if len(adds) != 1:
+        raise AnalysisError("_update_functions_aux_data: promotion statement not found")
+    g = adds[0]
+    want = lin.cond_at(g, ast.parse(
+        "isinstance(block, gtirb.CodeBlock) and function_uuid and aux_function_entries and block in aux_function_entries[function_uuid] "
+        "and isinstance(next_block, gtirb.CodeBlock) and cache.in_same_function(block, next_block)", mode="eval").body)
+    ctx.check(implies(want, g.guard), fi, g.node, "the next code block of the same function is promoted whenever the removed block was an entry",
+              f"promotion happens only under `{f_show(g.guard)[:150]}`: with an extra condition (size, edges, ...) a function whose entry is deleted keeps blocks but has no entry block",
+              key="_update_functions_aux_data::no-extra-condition")
+    st = repo.func("rewriting.RewritingContext._insert_function_stub")
+    ls = linear(st.node)
+    tables = {"function_entries": "{block}", "function_blocks": "{block}", "function_names": "sym"}
+    for tab, val in tables.items():
+        ws = [x for x in ls.stmts if isinstance(x.node, ast.Assign) and src(x.node.targets[0]) == f"{tab}[func_uuid]"]
+        ok = len(ws) == 1 and implies(TRUE, ws[0].guard) and src(ws[0].node.value) == val
+        ctx.check(ok, st, ws[0].node if ws else st.node, f"the stub is entered in `{tab}` unconditionally",
+                  f"`{tab}[func_uuid]` is {'not written' if not ws else 'written under `' + f_show(ws[0].guard)[:60] + '`'}: on some file formats the inserted function is in one function table "
+                  "but not in the others", key=f"_insert_function_stub::{tab}")
+    cw = [x for x in ls.stmts if isinstance(x.node, ast.Assign) and src(x.node.targets[0]) == "modify_cache.functions_by_block[block]"]
+    ctx.check(len(cw) == 1 and implies(TRUE, cw[0].guard) and src(cw[0].node.value) == "func_uuid", st, cw[0].node if cw else st.node, "the cache learns the stub's function unconditionally",
+              "functions_by_block is not updated for the stub", key="_insert_function_stub::cache")
+    es = [x for x in ls.stmts if isinstance(x.node, ast.Assign) and src(x.node.targets[0]) == "symbol_info[sym]"]
+    ok = len(es) == 1 and _equiv_guard(ls, es[0], "self._module.file_format == gtirb.Module.FileFormat.ELF") and "'FUNC'" in src(es[0].node.value)
+    ctx.check(ok, st, es[0].node if es else st.node, "on ELF (and only there) the function symbol gets a FUNC elfSymbolInfo entry",
+              "the elfSymbolInfo entry of the inserted function's symbol is missing / written for the wrong format", key="_insert_function_stub::elf-symbol-info")
